@@ -21,6 +21,8 @@ Sources (pinned tree), transcribed line by line:
   `already_setup` logic) — src/recon_buildblock/ProjMatrixByBinUsingRayTracing.cxx:160-260, :397;
 * `ProjMatrixElemsForOneBin::merge` (two-pointer loop) — src/recon_buildblock/ProjMatrixElemsForOneBin.cxx:160.
 
+`find_basic_view_segment_numbers` / `find_basic_bin` update their arguments in place and keep a `change` flag; the
+model gives one expression per output variable (`basicView`, `basicSeg`, …) and one for the flag.
 C semantics: `/` on `int` is `Int.tdiv`; `>> 1` is floor division by 2; 32-bit overflow is not modelled.
 Axial quantities that are floats in the source but always multiples of 1/4 plane (`axial_pos_to_z_offset`,
 `num_planes_per_scanner_ring * delta`) are carried as integers in quarter-plane units; `floor(x + 0.5)` is then
@@ -232,28 +234,43 @@ def iabs (x : Int) : Int := if x < 0 then -x else x
 def Sym.transformZ (y : Sym) (s a : Int) : Int :=
   (8 * (y.nppa s * a) + 2 * (y.nppr * y.delta2 s) + 2 * y.zoff4 s + 2) / 4
 
-/-- `find_basic_view_segment_numbers`: new pair and the `change` flag -/
-def Sym.findBasicVS (y : Sym) (p : VS) : VS × Bool :=
+/-- the view number left by `find_basic_view_segment_numbers` -/
+def Sym.basicView (y : Sym) (view : Int) : Int :=
   let view90 := y.V / 2          -- `num_views >> 1`
   let view45 := view90 / 2
   let view135 := view90 + view45
-  let (seg, change) := if y.swapSeg = true ∧ p.seg < 0 then (-p.seg, true) else (p.seg, false)
   if y.d90 = true then
-    if p.view ≥ view135 then (⟨y.V - p.view, seg⟩, true)
-    else if p.view ≥ view90 then (⟨p.view - view90, seg⟩, true)
-    else if p.view > view45 then (⟨view90 - p.view, seg⟩, true)
-    else (⟨p.view, seg⟩, change)
+    if view ≥ view135 then y.V - view
+    else if view ≥ view90 then view - view90
+    else if view > view45 then view90 - view
+    else view
   else if y.d180 = true then
-    if p.view > view90 then (⟨y.V - p.view, seg⟩, true)
-    else (⟨p.view, seg⟩, change)
-  else (⟨p.view, seg⟩, change)
+    if view > view90 then y.V - view else view
+  else view
+
+/-- the segment number left by `find_basic_view_segment_numbers` -/
+def Sym.basicSeg (y : Sym) (seg : Int) : Int := if y.swapSeg = true ∧ seg < 0 then -seg else seg
+
+/-- `find_basic_view_segment_numbers`: new pair and the returned flag (`true` in every branch that changes the
+    view, otherwise whether the segment was swapped) -/
+def Sym.findBasicVS (y : Sym) (p : VS) : VS × Bool :=
+  let view90 := y.V / 2
+  let view45 := view90 / 2
+  let view135 := view90 + view45
+  let viewChanged : Bool :=
+    if y.d90 = true then decide (p.view ≥ view135 ∨ p.view ≥ view90 ∨ p.view > view45)
+    else if y.d180 = true then decide (p.view > view90)
+    else false
+  (⟨y.basicView p.view, y.basicSeg p.seg⟩, viewChanged || decide (y.swapSeg = true ∧ p.seg < 0))
 
 /-- `find_basic_bin` (cylindrical branch): basic bin and the `change` flag -/
 def Sym.findBasicBin (y : Sym) (b : Bin) : Bin × Bool :=
-  let (vs, change) := y.findBasicVS ⟨b.view, b.seg⟩
-  let (tang, tof, change) := if y.swapS = true ∧ b.tang < 0 then (-b.tang, -b.tof, true) else (b.tang, b.tof, change)
-  let (ax, change) := if y.shiftZ = true ∧ b.ax ≠ 0 then (0, true) else (b.ax, change)
-  (⟨vs.seg, vs.view, ax, tang, tof⟩, change)
+  let vs := y.findBasicVS ⟨b.view, b.seg⟩
+  (⟨y.basicSeg b.seg, y.basicView b.view,
+    if y.shiftZ = true ∧ b.ax ≠ 0 then 0 else b.ax,
+    if y.swapS = true ∧ b.tang < 0 then -b.tang else b.tang,
+    if y.swapS = true ∧ b.tang < 0 then -b.tof else b.tof⟩,
+   vs.2 || decide (y.swapS = true ∧ b.tang < 0) || decide (y.shiftZ = true ∧ b.ax ≠ 0))
 
 def Sym.basic (y : Sym) (b : Bin) : Bin := (y.findBasicBin b).1
 
@@ -489,6 +506,22 @@ def PM.step (w : World G α) (s : PM G α) : Ev G → Except Err (PM G α × Opt
   | .storeOnlyBasic v => .ok ({ s with basicOnly := v }, none)
   | .setParams p => .ok ({ s with alreadySetup := s.alreadySetup && decide (s.params = p), params := p }, none)
   | .setUp g => (s.setUp w g).map fun s' => (s', none)
+
+/-- run a history on a matrix object; it ends at the first `error()` (an exception leaves the object in no defined
+    state).  For every successful `get` it records the bin, the configuration (geometry, parameters) that the last
+    successful `set_up` call *asked for*, and the returned row. -/
+def PM.run (w : World G α) : PM G α → Option (G × Params) → List (Ev G) → List (Bin × Option (G × Params) × Row α)
+  | _, _, [] => []
+  | s, cfg, ev :: rest =>
+    match s.step w ev with
+    | .error _ => []
+    | .ok (s', out) =>
+      let cfg' := match ev with
+        | .setUp g => some (g, s.params)
+        | _ => cfg
+      match ev, out with
+      | .get b, some r => (b, cfg, r) :: PM.run w s' cfg' rest
+      | _, _ => PM.run w s' cfg' rest
 
 /-- what the property says a row is: the basic bin's computed elements, moved by the symmetry operation -/
 def spec (w : World G α) (g : G) (p : Params) (b : Bin) : Option (Row α) :=
